@@ -5,11 +5,12 @@ import lib_doc as L
 from framework import Result
 
 ID = 'C02'
-# ---- PLACEHOLDER (to be filled in by the proof side): Lean targets and theorem names ----------
-LEAN_TARGETS = []
-THEOREMS = []
-# -----------------------------------------------------------------------------------------------
-PARTIAL = []
+LEAN_TARGETS = ['TexSoupProofs.Properties.C12', 'TexSoupProofs.Properties.C09', 'TexSoupProofs.Properties.C08']
+THEOREMS = ['TexSoup.C12.math_region', 'TexSoup.C09.group_closes_only_on_own_delimiter',
+            'TexSoup.C09.bracket_needs_no_partner', 'TexSoup.C08.conservation']
+PARTIAL = ['full completeness of the reader on the grammar (every construct, any nesting) is being proved separately; '
+           'until it is integrated the tree-shape clause is decided by the three-way comparison AST / implementation / '
+           'model in this check']
 TRUSTED = ['harness/gen_doc.py (grammar of documented constructs, expected tree of a generated document, frame '
            'conditions, normal form of canonical trees: adjacent text leaves merged, positions dropped)',
            'correspondence harness (props/c02.py, lib_doc.py, common.py)']
@@ -102,7 +103,8 @@ def oracle(ctx, seeds, scale):
         res += L.run_jobs(L.eval_docs, _jobs(ctx, 'more', _total(ctx) * (scale - 1) // 2, False))
     st = L.merge_jobs(res, None, r)
     st.into(r)
-    r.stats['seeds_without_generating_tree'] = len([s for s in seeds if isinstance(s, str)])
+    # diverging inputs of the correspondence are among the shared inputs, evaluated with their generating tree
+    r.stats['diverging_inputs_received'] = len([s for s in seeds if isinstance(s, str)])
     r.rule = ('normalise(canon_root(TexSoup(src))) == expected_canon(generating tree): every command, environment, '
               'group, math region, item, comment and text run once, in order, with name, argument kinds/order/exact '
               'contents and nesting as written; failures are shrunk on the generating tree; on ' +
